@@ -187,6 +187,9 @@ def run_history(sim, source, max_steps):
                 break
             n += 1
             if op["k"] == "flt.restart":
+                # recorded like any other op: a replay of this history restarts at the same point
+                sim.ops.append(op)
+                sim.log.append([op["i"], op["k"], op.get("f"), "restart", None])
                 raise Restart()
             sim.execute(op)
         sim.finish()
